@@ -136,7 +136,7 @@ def jobs(tier, seed):
         for wr in (False, True):
             out.append({"harness": "decode_documented", "params": {"suffix": suf, "ctype": ct, "with_respin": wr, "n_prefix": 12 if big else 8}})
     for wr in (False, True):
-        out.append({"harness": "decode_unknown", "params": {"n_suffix": 8, "with_respin": wr}})
+        out.append({"harness": "decode_unknown", "params": {"n_suffix": 24 if big else 16, "with_respin": wr}})
     from productmd.composeinfo import COMPOSE_TYPES as _CT
     for ctype in _CT:
         for stale in (False, True):
